@@ -226,6 +226,32 @@ Section RowFacts.
     apply H; [apply dropped_In in Hr; tauto | eapply dropped_incomplete; exact Hr | exact E].
   Qed.
 
+  (* the repair of /var/tmp/proposed-fixes/C07-1.diff (.loc[~isfinite(temperature), "observed"] = NaN): holds when
+     no row carries an infinite usage value (the property's quantifier: usage is a number or missing) *)
+  Lemma both_or_neither_nonfinite_temp : forall rows,
+    (forall r, In r rows -> no_inf (obs r) = true) ->
+    both_or_neither (predict_rows f MaskNonFiniteTemp true rows).
+  Proof.
+    intros rows H. apply both_or_neither_iff. intros r Hr. cbn [mask_obs].
+    destruct (finite (temp r)) eqn:E; [|reflexivity].
+    pose proof (dropped_incomplete _ _ _ Hr) as Hc. unfold complete in Hc. rewrite E in Hc. cbn [andb negb orb] in Hc.
+    assert (Hi : no_inf (obs r) = true) by (apply H; apply dropped_In in Hr; tauto).
+    destruct (obs r); cbn in *; congruence.
+  Qed.
+
+  (* and the guard is exact for that repair: an infinite usage value on a day with a finite temperature breaks it *)
+  Lemma both_or_neither_nonfinite_temp_only_if : forall rows, NoDup (map (@ts A) rows) ->
+    both_or_neither (predict_rows f MaskNonFiniteTemp true rows) ->
+    forall r, In r rows -> finite (temp r) = true -> no_inf (obs r) = true.
+  Proof.
+    intros rows Hnd H r Hin Ht. rewrite both_or_neither_iff in H.
+    destruct (no_inf (obs r)) eqn:E; [reflexivity|].
+    assert (Hc : complete true r = false).
+    { unfold complete. rewrite Ht. cbn [andb negb orb]. destruct (obs r); cbn in *; congruence. }
+    specialize (H r (incomplete_dropped true rows r Hnd Hin Hc)). cbn [mask_obs] in H. rewrite Ht in H.
+    destruct (obs r); cbn in *; congruence.
+  Qed.
+
   (* a day whose consumption is missing gets no prediction — for every masking policy *)
   Lemma missing_usage_no_prediction : forall pol rows o,
     In o (predict_rows f pol true rows) -> notna (o_obs o) = false -> o_pred o = NaN.
@@ -334,4 +360,30 @@ Lemma sums_agree_repaired : forall (f : Z -> Q -> Q) rows,
   nansum (map (@o_pred Q) out) - nansum (map (@o_obs Q) out) == nansum (map savings out).
 Proof.
   intros f rows out. apply sums_agree; [apply both_or_neither_repaired | apply predict_rows_repaired_no_inf].
+Qed.
+
+(* the repair that masks where the temperature is not finite keeps the frame free of infinities as soon as the
+   usage column has none *)
+Lemma predict_rows_nonfinite_temp_no_inf : forall (f : Z -> Q -> Q) rows,
+  (forall r, In r rows -> no_inf (obs r) = true) ->
+  Forall (fun o => row_no_inf o = true) (predict_rows f MaskNonFiniteTemp true rows).
+Proof.
+  intros f rows H. apply Forall_forall. intros o Ho. apply predict_rows_In in Ho.
+  destruct Ho as [[r [Hr E]]|[r [Hr E]]]; subst o.
+  - apply kept_In in Hr. destruct Hr as [_ Hc]. unfold row_no_inf.
+    pose proof (kept_observed Q f r Hc) as H1. destruct (complete_temp Q _ _ Hc) as [t Ht].
+    cbn [predict_kept o_obs o_pred out_obs] in *. rewrite Ht.
+    destruct (obs r); cbn in *; congruence.
+  - apply dropped_In in Hr. destruct Hr as [Hin _]. specialize (H r Hin).
+    unfold row_no_inf. cbn [carry_dropped o_obs o_pred out_obs mask_obs].
+    destruct (finite (temp r)); [rewrite H|]; reflexivity.
+Qed.
+
+Lemma sums_agree_nonfinite_temp : forall (f : Z -> Q -> Q) rows,
+  (forall r, In r rows -> no_inf (obs r) = true) ->
+  let out := predict_rows f MaskNonFiniteTemp true rows in
+  nansum (map (@o_pred Q) out) - nansum (map (@o_obs Q) out) == nansum (map savings out).
+Proof.
+  intros f rows H out. apply sums_agree;
+    [apply both_or_neither_nonfinite_temp; exact H | apply predict_rows_nonfinite_temp_no_inf; exact H].
 Qed.
